@@ -17,11 +17,27 @@
   (`np.power(P, alpha)` read as `exp (alpha * log P)`), `hP`/`hT` (profile lengths); the tie's `x + 0 = x` holds in ℝ.
 
   Not restated (no tie):
-  * `available_spec`, `partition_perm`, `lookup_row`: `availableActive`, `activeGases`/`inactiveGases`/masks,
-    `getGasMixProfile` (`determine_active_inactive`, `Chemistry.__init__`, `get_gas_mix_profile`) are not translated;
-  * `array_between` (`arrayGas`), `twoLayer_between` (`twoLayerGas`): `ArrayGas` / `TwoLayerGas.initialize_profile` are
-    not translated;
-  * `profile_len` (`Gas.profile`) and `chemistry_valid` (`chemistry`): the dispatch over gas objects has no tie.
+  * `lookup_row`: `getGasMixProfile` (`get_gas_mix_profile`, which indexes the optional result of the
+    `activeGasMixProfile` / `inactiveGasMixProfile` properties by `list.index`) is not translated;
+  * nothing else of Props/C10.lean.  (`chemistry_valid` is restated as `src_chemistry_valid`: the loop of
+    `initialize_chemistry` over the gas OBJECTS is tied with the profiles as parameters (`gasMix`); the theorem feeds it
+    the profiles the regenerated `initialize_profile` of every gas returns.)
+
+  Restated since the ties of the dialect `seq` exist (Props/C10Src.lean: `src_array_gas`, `src_two_layer_gas`):
+  * `srcArray arr n` — the regenerated `ArrayGas.initialize_profile` (`np.linspace` / `np.interp` = the model's): `src_array_between`;
+  * `srcTwoLayer surf top pb w n P` — the regenerated WHOLE `TwoLayerGas.initialize_profile` with Python's `int()` on reals
+    `pyIntR` and int → float `toFloatR` (`Except.error "ValueError"` = numpy refuses the border store): `src_twoLayer_between`;
+    the tie needs a non-negative smoothing window and at least one layer (`hw`, `h1`);
+  * `srcGasProfile g rpow n P T` — `gas.initialize_profile(n, T, P, z); gas.mixProfile` for a gas object of each built-in
+    class (Python's dynamic dispatch is the `match` on the class): `src_profile_len`;
+  * `srcPowerAuto ms a b g known ptype bf rpow P T n` — the regenerated WHOLE `PowerGas.initialize_profile`: the look-up of
+    the coefficients the constructor left `None` in the tuple `check_known(profile_type)` returns (external `known`), then
+    the formula: `src_power_auto_le_surface`;
+  * `srcAvail kt op ktables deactive` — what the regenerated `Chemistry.__init__` leaves in `_avail_active` (`kt` / `op`: the
+    molecule lists of the k-table / cross-section cache, `ktables`: the global `opacity_method` is 'ktables'): `src_available_spec`
+    (and `src_available_spec_str` for the option given as one bare string);
+  * `srcSplit gases avail` — what the regenerated `determine_active_inactive` leaves in `(_active, _active_mask, _inactive,
+    _inactive_mask)`, a mask being `None` when it would be empty (`maskOf` reads `None` as `[]`): `src_partition_perm`.
 -/
 import Props.C10
 import Props.C10Src
@@ -29,6 +45,8 @@ set_option linter.unusedSectionVars false
 
 namespace Taurex.C10SrcProps
 open Taurex Taurex.NpInterp Taurex.Chemistry Taurex.C10 Taurex.C10Src
+open Taurex.SeqSrc (outcomeOf outcomeOf_ok_iff pyIntR toFloatR pyIntR_nonneg pyIntR_nonneg' pyIntR_max toFloatR_nat pyIntR_half
+  oddWindow_pos)
 
 /-! ### the instantiated source expressions -/
 
@@ -200,5 +218,228 @@ theorem src_power_le_surface (ms alpha beta gamma bf : ℝ) (rpow : ℝ → ℝ 
       ∀ v ∈ srcPower ms alpha beta gamma bf rpow pressure temperature n, 0 < v ∧ v ≤ ms := by
   rw [srcPower_eq ms alpha beta gamma bf rpow hpow pressure temperature n hP hT]
   exact power_le_surface ms alpha beta gamma bf pressure temperature h0
+
+/-! ### ArrayGas, TwoLayerGas, and every built-in gas object -/
+
+/-- the regenerated `ArrayGas.initialize_profile` -/
+noncomputable def srcArray (arr : List ℝ) (n : Nat) : List ℝ :=
+  Gen.SrcC10.array_gas n (fun x xp fp => npInterp xp fp x) (fun a b k => linspace a b k) arr
+
+theorem srcArray_eq (arr : List ℝ) (n : Nat) : srcArray arr n = arrayGas arr n := src_array_gas arr n
+
+/-- ArrayGas: one value per layer for any layer count, each inside the range of the tabulated abundances, about the
+    regenerated `initialize_profile` -/
+theorem src_array_between (arr : List ℝ) (n : Nat) (lo hi : ℝ) (hne : 0 < arr.length)
+    (h : ∀ x ∈ arr, lo ≤ x ∧ x ≤ hi) :
+    (srcArray arr n).length = n ∧ ∀ v ∈ srcArray arr n, lo ≤ v ∧ v ≤ hi := by
+  rw [srcArray_eq]; exact array_between arr n lo hi hne h
+
+/-- the regenerated `TwoLayerGas.initialize_profile` (what it leaves in `self._mix_profile`, or the exception) -/
+noncomputable def srcTwoLayer (surf top pb w : ℝ) (n : Nat) (pressure : List ℝ) : Except String (List ℝ) :=
+  Gen.SrcC10.two_layer_gas n pressure (fun x xp fp => npInterp xp fp x) pb surf top pyIntR w toFloatR
+
+/-- the tie, over ℝ: for a non-negative smoothing window and at least one layer the regenerated
+    `TwoLayerGas.initialize_profile` IS the model's `twoLayerGas` -/
+theorem srcTwoLayer_eq (surf top pb w : ℝ) (n : Nat) (pressure : List ℝ) (h1 : 1 ≤ n) (hw : 0 ≤ w) :
+    outcomeOf "InvalidModelException" (srcTwoLayer surf top pb w n pressure) = twoLayerGas surf top pb w n pressure := by
+  unfold srcTwoLayer
+  refine src_two_layer_gas surf top pb w n pressure pyIntR toFloatR h1 toFloatR_nat pyIntR_max ?_ ?_ pyIntR_half ?_
+  · apply pyIntR_nonneg'
+    simp only [ofNat'_real]; positivity
+  · apply pyIntR_nonneg'
+    simp only [ofNat'_real]; positivity
+  · exact src_movingaverage _ _ (oddWindow_pos n w) toFloatR toFloatR_nat
+
+/-- TwoLayerGas, about the regenerated `initialize_profile`: whenever a profile is returned, smoothing included, every
+    abundance lies between the two control abundances (guards as in `twoLayer_between`, at least one layer) -/
+theorem src_twoLayer_between (surf top pb w lo hi : ℝ) (n : Nat) (pressure row : List ℝ) (hlo : 0 < lo)
+    (hs : lo ≤ surf ∧ surf ≤ hi) (ht : lo ≤ top ∧ top ≤ hi) (hn : n = pressure.length) (h1 : 1 ≤ n) (hw : 0 ≤ w)
+    (hpos : ∀ x ∈ pressure, 0 < x) (hsorted : pressure.Pairwise (fun a b => b ≤ a))
+    (hok : srcTwoLayer surf top pb w n pressure = .ok row) : ∀ v ∈ row, lo ≤ v ∧ v ≤ hi := by
+  have h := srcTwoLayer_eq surf top pb w n pressure h1 hw
+  rw [hok] at h
+  exact twoLayer_between surf top pb w lo hi n pressure row hlo hs ht hn hw hpos hsorted h.symm
+
+/-- `gas.initialize_profile(n, T, P, z); gas.mixProfile` for a gas OBJECT of each built-in class: the regenerated
+    `initialize_profile` of that class (Python's dynamic dispatch is the `match`; `TwoPointGas` reads the layer count off
+    the pressure profile it is handed) -/
+noncomputable def srcGasProfile (g : Gas ℝ) (rpow : ℝ → ℝ → ℝ) (n : Nat) (pressure temperature : List ℝ) :
+    Except String (List ℝ) :=
+  match g with
+  | .constant mix => .ok (srcConstant mix n)
+  | .twoLayer s t pb w => srcTwoLayer s t pb w n pressure
+  | .twoPoint s t => .ok (srcTwoPoint s t pressure)
+  | .array arr => .ok (srcArray arr n)
+  | .power ms a b c bf => .ok (srcPower ms a b c bf rpow pressure temperature n)
+
+theorem srcGasProfile_eq (g : Gas ℝ) (rpow : ℝ → ℝ → ℝ) (hpow : ∀ x y, rpow x y = exp (y * log x)) (n : Nat)
+    (pressure temperature : List ℝ) (hadm : g.Admissible) (hn : n = pressure.length) (hT : n = temperature.length)
+    (h1 : 1 ≤ n) :
+    outcomeOf "InvalidModelException" (srcGasProfile g rpow n pressure temperature)
+      = g.profile n pressure temperature := by
+  cases g with
+  | constant m => simp [srcGasProfile, Gas.profile, srcConstant_eq]
+  | twoLayer s t pb w => exact srcTwoLayer_eq s t pb w n pressure h1 hadm.2.2.1
+  | twoPoint s t => simp [srcGasProfile, Gas.profile, srcTwoPoint_eq]
+  | array arr => simp [srcGasProfile, Gas.profile, srcArray_eq]
+  | power ms a b c bf =>
+    simp [srcGasProfile, Gas.profile, srcPower_eq ms a b c bf rpow hpow pressure temperature n hn.symm hT.symm]
+
+/-- **every built-in profile yields exactly one value per layer for every layer count** (in particular TwoLayerGas with any
+    percentage window and 10, 25, 45 … layers never fails at the border store) and none of them is negative, about the
+    regenerated `initialize_profile` of each class -/
+theorem src_profile_len (g : Gas ℝ) (rpow : ℝ → ℝ → ℝ) (hpow : ∀ x y, rpow x y = exp (y * log x)) (n : Nat)
+    (pressure temperature : List ℝ) (hadm : g.Admissible) (hn : n = pressure.length) (hT : n = temperature.length)
+    (h1 : 1 ≤ n) :
+    ∃ row, srcGasProfile g rpow n pressure temperature = .ok row ∧ row.length = n ∧ ∀ x ∈ row, 0 ≤ x := by
+  obtain ⟨row, hrow, hl, hnn⟩ := profile_len g n pressure temperature hadm hn hT
+  rw [← srcGasProfile_eq g rpow hpow n pressure temperature hadm hn hT h1, outcomeOf_ok_iff] at hrow
+  exact ⟨row, hrow, hl, hnn⟩
+
+/-! ### PowerGas with coefficients left to the table -/
+
+/-- the regenerated whole `PowerGas.initialize_profile` (what it leaves in `self._mix_profile`, or the exception) -/
+noncomputable def srcPowerAuto (ms a b g : Option ℝ) (known : String → Option ℝ × Option ℝ × Option ℝ × Option ℝ)
+    (ptype : String) (bf : ℝ) (rpow : ℝ → ℝ → ℝ) (P T : List ℝ) (n : Nat) : Except String (List ℝ) :=
+  Gen.SrcC10.power_gas_full n T P a b bf known g ms ptype rpow
+
+theorem powerGasAuto_ok (ms a b g : Option ℝ) (k : Option ℝ × Option ℝ × Option ℝ × Option ℝ) (bf : ℝ) (P T row : List ℝ)
+    (h : powerGasAuto ms a b g k bf P T = .ok row) :
+    ∃ m a' b' g', powerCoeff ms k.2.2.2 = some m ∧ powerCoeff a k.1 = some a' ∧ powerCoeff b k.2.1 = some b' ∧
+      powerCoeff g k.2.2.1 = some g' ∧ row = powerGas m a' b' g' bf P T := by
+  unfold powerGasAuto at h
+  split at h
+  · rename_i m a' b' g' h1 h2 h3 h4
+    exact ⟨m, a', b', g', h1, h2, h3, h4, (Outcome.ok.inj h).symm⟩
+  · exact absurd h (by simp)
+
+/-- PowerGas, coefficients left `None` included, about the regenerated whole `initialize_profile`: whenever it returns a
+    profile, the deep-atmosphere abundance it used is the constructor's or the tabulated one, and (when that is positive)
+    the profile has one value per layer, each positive and at most that abundance; a coefficient that is neither given nor
+    tabulated gives no profile (ValueError) -/
+theorem src_power_auto_le_surface (ms a b g : Option ℝ) (known : String → Option ℝ × Option ℝ × Option ℝ × Option ℝ)
+    (ptype : String) (bf : ℝ) (rpow : ℝ → ℝ → ℝ) (hpow : ∀ x y, rpow x y = exp (y * log x)) (P T row : List ℝ) (n : Nat)
+    (h : P.length = T.length) (hok : srcPowerAuto ms a b g known ptype bf rpow P T n = .ok row) :
+    ∃ m0, powerCoeff ms (known ptype).2.2.2 = some m0 ∧
+      (0 < m0 → row.length = min P.length T.length ∧ ∀ v ∈ row, 0 < v ∧ v ≤ m0) := by
+  have ht := src_power_gas_full ms a b g known ptype bf rpow hpow P T n h
+  unfold srcPowerAuto at hok
+  rw [hok] at ht
+  obtain ⟨m, a', b', g', h1, _, _, _, rfl⟩ := powerGasAuto_ok ms a b g (known ptype) bf P T row ht.symm
+  exact ⟨m, h1, fun h0 => power_le_surface m a' b' g' bf P T h0⟩
+
+/-! ### the molecules that count as absorbing, the active / inactive split -/
+
+/-- what the regenerated `Chemistry.__init__` leaves in `_avail_active` (`deactive_molecules` None or a list) -/
+def srcAvail (kt op : List String) (ktables : Bool) (deactive : Option (List String)) : List String :=
+  Gen.SrcC10.chemistry_init deactive kt ktables op
+
+/-- the molecules that count as absorbing, about the regenerated `Chemistry.__init__`: the registered opacity data (of
+    the cache the global option selects) minus the `deactive_molecules` option -/
+theorem src_available_spec (kt op : List String) (ktables : Bool) (deactive : Option (List String)) (g : String) :
+    g ∈ srcAvail kt op ktables deactive ↔
+      g ∈ (if ktables then kt else op) ∧ ∀ d, deactive = some d → g ∉ d := by
+  unfold srcAvail
+  rw [src_chemistry_init]
+  exact available_spec _ deactive g
+
+/-- the same when the option is ONE bare string: exactly that molecule is taken out -/
+theorem src_available_spec_str (kt op : List String) (ktables : Bool) (d g : String) :
+    g ∈ Gen.SrcC10.chemistry_init_str d kt ktables op ↔ g ∈ (if ktables then kt else op) ∧ g ≠ d := by
+  rw [src_chemistry_init_str, available_spec]
+  simp
+
+/-- what the regenerated `determine_active_inactive` leaves in `(_active, _active_mask, _inactive, _inactive_mask)` -/
+def srcSplit (gases avail : List String) : List String × Option (List Nat) × List String × Option (List Nat) :=
+  Gen.SrcC10.determine_active_inactive avail gases
+
+/-- a mask attribute read as a list of positions (`None` = no position) -/
+def maskOf (m : Option (List Nat)) : List Nat := m.getD []
+
+theorem maskOf_ite (l : List Nat) : maskOf (if l.isEmpty then none else some l) = l := by
+  unfold maskOf
+  cases l <;> simp
+
+/-- **active and inactive gases partition the gas list** by availability, each in the original order, and the masks
+    point at exactly those gases — about the regenerated `determine_active_inactive` -/
+theorem src_partition_perm (gases avail : List String) :
+    ((srcSplit gases avail).1 ++ (srcSplit gases avail).2.2.1).Perm gases ∧
+    (srcSplit gases avail).1.Sublist gases ∧ (srcSplit gases avail).2.2.1.Sublist gases ∧
+    (∀ g, g ∈ (srcSplit gases avail).1 ↔ g ∈ gases ∧ avail.contains g = true) ∧
+    (maskOf (srcSplit gases avail).2.1).map (fun i => gases.getD i "") = (srcSplit gases avail).1 ∧
+    (maskOf (srcSplit gases avail).2.2.2).map (fun i => gases.getD i "") = (srcSplit gases avail).2.2.1 := by
+  unfold srcSplit
+  rw [src_determine_active_inactive]
+  simp only [maskOf_ite]
+  exact partition_perm gases avail
+
+/-! ### end to end -/
+
+/-- the profiles the code collects from the gas objects (`gas.mixProfile` after `gas.initialize_profile`), as the array
+    parameter `gasMix` of the regenerated `initialize_chemistry` -/
+noncomputable def gasMixOf (traces : List (List ℝ)) : Nat → Nat → ℝ := fun k j => (traces.getD k []).getD j 0
+
+theorem srcTraces_gasMixOf (n : Nat) (traces : List (List ℝ)) (h : ∀ r ∈ traces, r.length = n) :
+    srcTraces n traces.length (gasMixOf traces) = traces := by
+  unfold srcTraces rowsOf gasMixOf
+  rw [List.map_map]
+  apply List.ext_getElem
+  · simp
+  · intro k h1 h2
+    simp only [List.getElem_map, List.getElem_range, Function.comp_def]
+    have hk : traces.getD k [] = traces[k] := by
+      rw [List.getD_eq_getElem?_getD, List.getElem?_eq_getElem h2]; rfl
+    rw [hk]
+    exact listOf_getD_self _ n (h _ (List.getElem_mem h2))
+
+theorem src_profiles_total (rpow : ℝ → ℝ → ℝ) (hpow : ∀ x y, rpow x y = exp (y * log x)) (n : Nat)
+    (pressure temperature : List ℝ) (hn : n = pressure.length) (hT : n = temperature.length) (h1 : 1 ≤ n) :
+    ∀ (gases : List (Gas ℝ)), (∀ g ∈ gases, g.Admissible) →
+      ∃ traces : List (List ℝ),
+        List.Forall₂ (fun g row => srcGasProfile g rpow n pressure temperature = .ok row) gases traces ∧
+        (∀ r ∈ traces, r.length = n) ∧ (∀ r ∈ traces, ∀ x ∈ r, 0 ≤ x)
+  | [], _ => ⟨[], List.Forall₂.nil, by simp, by simp⟩
+  | g :: gs, hadm => by
+    obtain ⟨row, hrow, hl, hnn⟩ := src_profile_len g rpow hpow n pressure temperature (hadm g (by simp)) hn hT h1
+    obtain ⟨rows, hf, hls, hnns⟩ := src_profiles_total rpow hpow n pressure temperature hn hT h1 gs
+      (fun g' hg' => hadm g' (List.mem_cons_of_mem _ hg'))
+    refine ⟨row :: rows, List.Forall₂.cons hrow hf, ?_, ?_⟩
+    · intro r hr
+      rcases List.mem_cons.1 hr with rfl | hr
+      · exact hl
+      · exact hls r hr
+    · intro r hr
+      rcases List.mem_cons.1 hr with rfl | hr
+      · exact hnn
+      · exact hnns r hr
+
+/-- **end to end, about the regenerated source**: for admissible gas objects the regenerated `initialize_profile` of every
+    gas returns a profile (one value per layer, none negative), and the regenerated `initialize_chemistry`, fed with these
+    profiles, either raises `InvalidChemistryException` or leaves one row per gas whose layers are non-negative and sum to
+    one -/
+theorem src_chemistry_valid (nFill : Nat) (ratios : List ℝ) (gases : List (Gas ℝ)) (rpow : ℝ → ℝ → ℝ)
+    (hpow : ∀ x y, rpow x y = exp (y * log x)) (n : Nat) (pressure temperature : List ℝ) (h1 : 1 ≤ nFill)
+    (hcount : ¬ (1 < nFill ∧ ratios.length ≠ nFill - 1)) (hratio : ∀ r ∈ ratios, 0 ≤ r)
+    (hadm : ∀ g ∈ gases, g.Admissible) (hn : n = pressure.length) (hT : n = temperature.length) (hn1 : 1 ≤ n) :
+    ∃ traces : List (List ℝ),
+      List.Forall₂ (fun g row => srcGasProfile g rpow n pressure temperature = .ok row) gases traces ∧
+      (srcMix nFill ratios n gases.length (gasMixOf traces) = none ∨
+       ∃ rows, srcMix nFill ratios n gases.length (gasMixOf traces) = some rows ∧
+        rows.length = nFill + gases.length ∧ (∀ r ∈ rows, r.length = n) ∧
+        (∀ r ∈ rows, ∀ x ∈ r, 0 ≤ x) ∧ ∀ j, j < n → sumL (column rows j) = 1) := by
+  obtain ⟨traces, hf, hls, hnns⟩ := src_profiles_total rpow hpow n pressure temperature hn hT hn1 gases hadm
+  refine ⟨traces, hf, ?_⟩
+  have hlen : gases.length = traces.length := hf.length_eq
+  have htr : srcTraces n gases.length (gasMixOf traces) = traces := by
+    rw [hlen]; exact srcTraces_gasMixOf n traces hls
+  cases hm : srcMix nFill ratios n gases.length (gasMixOf traces) with
+  | none => exact Or.inl rfl
+  | some rows =>
+    refine Or.inr ⟨rows, rfl, ?_⟩
+    have hok := (srcMix_ok nFill ratios n gases.length (gasMixOf traces) hcount rows).1 hm
+    rw [htr] at hok
+    have hr := mix_rows nFill ratios traces rows n h1 hls hok
+    exact ⟨by rw [hr.1, hlen], hr.2.1, mix_nonneg nFill ratios traces rows n hratio hnns hok,
+      mix_sum_one nFill ratios traces rows n h1 hls hratio hok⟩
 
 end Taurex.C10SrcProps
